@@ -102,6 +102,9 @@ func codecCheck(c *chk.Ctx, enforce string) {
 		}
 		if cc.skipped != "" {
 			nSkipped++
+			if os.Getenv("VERIF_DEBUG") != "" {
+				fmt.Fprintln(os.Stderr, "skipped", cc.ex.Fv, cc.skipped)
+			}
 			continue
 		}
 		specs = append(specs, work.PkgSpec{ImportPath: "scratch/" + cc.pkgH, Server: true}, work.PkgSpec{ImportPath: "scratch/" + cc.pkgC, NoServices: true})
